@@ -26,3 +26,15 @@ type Property struct {
 var Registry = map[string]*Property{}
 
 func register(p *Property) { Registry[p.ID] = p }
+
+// shared runs rule functions that belong to another property under the given rule id.
+func shared(id string, runs ...func(*core.Ctx)) func(*core.Ctx) {
+	return func(c *core.Ctx) {
+		old := c.RuleAlias
+		c.RuleAlias = id
+		defer func() { c.RuleAlias = old }()
+		for _, r := range runs {
+			r(c)
+		}
+	}
+}
